@@ -4,7 +4,7 @@ All obligations run the shipped ``update`` / ``var`` / ``std`` code on symbolic 
 """
 from symx import And, Or, Not, Implies, eq, le, ite
 from symx.stubs import patched
-from .common import guarded, total
+from .common import guarded, total, check_state_coverage
 
 from ixai.utils.tracker import WelfordTracker, ExponentialSmoothingTracker
 
@@ -51,6 +51,7 @@ def scenario(env, cfg):
 
 def _welford_step(env, cfg):
     t = WelfordTracker()
+    check_state_coverage(t)
     N = env.int('N')
     mean, ssq = env.real('mean'), env.real('ssq')
     S1, S2, lo, hi = env.real('S1'), env.real('S2'), env.real('lo'), env.real('hi')
@@ -135,6 +136,7 @@ def _smooth_step(env, cfg):
     alpha = env.real('alpha')
     env.assume(And(alpha >= 0, alpha <= 1))
     t = _mk_smooth(env, alpha)
+    check_state_coverage(t)
     N = env.int('N')
     env.assume(N >= 0)
     val, lo, hi = env.real('val'), env.real('lo'), env.real('hi')
